@@ -470,6 +470,7 @@ type SpecFunc struct {
 	Result string
 	Body   Expr // nil => uninterpreted
 	File   string
+	Rec    bool // recursive definition: applications are UF terms with one-step unfolding instances
 }
 
 type DeclIface struct { // pure interface method declaration
@@ -684,13 +685,19 @@ func (cs *ContractSet) LoadFile(path, pkgPath string, isSpec bool) error {
 		case "spec":
 			// spec func name(a T, b U) R [= expr]
 			w2, r2 := firstWord(rest)
+			rec := false
+			if w2 == "rec" {
+				rec = true
+				w2, r2 = firstWord(r2)
+			}
 			if w2 != "func" {
-				return fail(fmt.Errorf("expected 'spec func'"))
+				return fail(fmt.Errorf("expected 'spec [rec] func'"))
 			}
 			sf, err := parseSpecFunc(r2)
 			if err != nil {
 				return fail(err)
 			}
+			sf.Rec = rec
 			sf.Pkg = pkgPath
 			sf.File = path
 			cs.Specs[sf.Name] = sf
